@@ -29,7 +29,8 @@ SrcShapes(code) ==
   FoldLeft(LAMBDA acc, sh : IF \E k \in 1..Len(code) : code[k].op = "JF" /\ code[k].sk = sh THEN acc \o "+" \o sh ELSE acc, "", ShapeList)
 ValTag(vs) == IF vs = <<>> THEN "-" ELSE vs[1][1]
 
-V(ok, clause, key, detail) == [ok |-> ok, clause |-> clause, key |-> key, detail |-> detail]
+V(ok, clause, key, detail) == [ok |-> ok, clause |-> clause, key |-> key, detail |-> detail, ssk |-> ""]
+VS(ok, clause, key, detail, ssk) == [ok |-> ok, clause |-> clause, key |-> key, detail |-> detail, ssk |-> ssk]
 
 \* which operand of a device call differs: the name the library gives the parameter
 DevDiffName(a, b) ==
@@ -64,37 +65,62 @@ JudgeRun(ps, cs, inp, dev) ==
        ELSE IF a[1] = "dev" /\ b[1] = "dev" /\ a[2] = b[2] THEN
             (IF a[3] # b[3] THEN V(FALSE, "arity", "arity:" \o b[2] \o ":passed=" \o ToString(b[3][1]) \o ":declared=" \o ToString(a[3][1]), "")
              ELSE V(FALSE, "operand", "operand:" \o b[2] \o ":" \o DevDiffName(a, b), "src=" \o a[5]))
-       ELSE V(FALSE, "obs", "obs:" \o a[1] \o "/" \o b[1] \o ":src=" \o a[5] \o ":tgt=" \o b[5] \o
+       ELSE VS(FALSE, "obs", "obs:" \o a[1] \o "/" \o b[1] \o ":src=" \o a[5] \o ":tgt=" \o b[5] \o
                       (IF a[1] = b[1] /\ a[2] = b[2] THEN ":value(" \o ValTag(a[4]) \o "/" \o ValTag(b[4]) \o ")" ELSE ":event"),
-              "event " \o ToString(k) \o " name " \o a[2] \o "/" \o b[2])
+              "event " \o ToString(k) \o " name " \o a[2] \o "/" \o b[2], a[5])
   ELSE IF sb.status = "unjudged" THEN V(TRUE, "unjudged", "tgt-" \o sb.why, "")
   ELSE IF sb.status = "undef" THEN
-       (IF cs.init THEN V(FALSE, "initial", "initial:read-of-unassigned:" \o sb.rdundef \o ":at=" \o bp.code[sb.pc].op \o
-                                  (IF bp.code[sb.pc].op = "JF" THEN "-" \o bp.code[sb.pc].sk ELSE ""), "shapes" \o shapes)
-        ELSE V(TRUE, "unjudged", "tgt-reads-unassigned-without-init", ""))
+       LET at == bp.code[sb.pc].op \o (IF bp.code[sb.pc].op = "JF" THEN "-" \o bp.code[sb.pc].sk ELSE "") IN
+       IF sb.rdundef \in TmpNames THEN
+            V(FALSE, "temp-defined", "temp-defined:read-of-unassigned-temporary:at=" \o at \o
+                     (IF \E q \in 1..Len(dp.code) : dp.code[q].op = "JF" /\ dp.code[q].sk \in {"IF-ELSE", "IF-ELSEIF-ELSE", "IF-ELSEIF-noELSE"}
+                      THEN ":src=IF-with-ELSE" ELSE ""), sb.rdundef \o " shapes" \o shapes)
+       ELSE IF cs.init THEN V(FALSE, "initial", "initial:read-of-unassigned-variable:at=" \o at, sb.rdundef \o " shapes" \o shapes)
+       ELSE V(TRUE, "unjudged", "tgt-reads-unassigned-without-init", sb.rdundef)
   ELSE IF sb.status = "error" THEN
        V(FALSE, "target-error", "target-error:" \o sb.why \o ":at=" \o bp.code[sb.pc].op \o
                          (IF bp.code[sb.pc].op = "JF" THEN "-" \o bp.code[sb.pc].sk \o ":src-has=" \o shapes ELSE ""), "after " \o ToString(Len(sb.obs)) \o " events; shapes" \o shapes)
   ELSE IF sb.status = "run" THEN
-       V(FALSE, "halt", "halt:target-spins-in=" \o SpinWhere(bp.code[sb.pc]) \o ":src-has=" \o shapes, "")
+       V(FALSE, "halt", "halt:target-spins-in=" \o SpinWhere(bp.code[sb.pc]) \o
+                        (IF SpinWhere(bp.code[sb.pc]) = "LOOP-block" /\ \E q \in 1..Len(dp.code) : dp.code[q].op = "JF" /\ dp.code[q].sk = "IF-ELSEIF-noELSE"
+                         THEN ":src=IF-ELSEIF-without-ELSE" ELSE ""), "shapes" \o shapes)
   ELSE IF Len(sd.obs) # Len(sb.obs) THEN
        V(FALSE, "obs", "obs:" \o (IF Len(sd.obs) > Len(sb.obs) THEN "missing:" \o sd.obs[Len(sb.obs) + 1][1] \o ":src=" \o sd.obs[Len(sb.obs) + 1][5]
                                   ELSE "extra:" \o sb.obs[Len(sd.obs) + 1][1]), "")
   ELSE IF kc # 0 THEN V(FALSE, "call-seq", "call-seq:want=" \o sd.calls[kc][1] \o ":got=" \o sb.calls[kc][1], "call " \o ToString(kc))
   ELSE IF Len(sd.calls) # Len(sb.calls) THEN
-       V(FALSE, "call-seq", "call-seq:" \o (IF Len(sd.calls) > Len(sb.calls) THEN "lost:" \o sd.calls[Len(sb.calls) + 1][1]
-                                            ELSE "extra:" \o sb.calls[Len(sd.calls) + 1][1]), "")
+       VS(FALSE, "call-seq", "call-seq:" \o (IF Len(sd.calls) > Len(sb.calls) THEN "lost:" \o sd.calls[Len(sb.calls) + 1][1]
+                                            ELSE "extra:" \o sb.calls[Len(sd.calls) + 1][1]), "", IF Len(sd.calls) > Len(sb.calls) THEN "lost" ELSE "extra")
   ELSE V(TRUE, "ok", "", "")
+
+\* ---- situations on the source side that identify a known root cause (second half of a key) ----
+RECURSIVE HasConv(_)
+HasConv(tr) == CASE tr[1] = "call" -> tr[2] \in Convertible \/ \E k \in 1..Len(tr[3]) : HasConv(tr[3][k])
+                 [] tr[1] = "idx" -> \E k \in 1..Len(tr[3]) : HasConv(tr[3][k])
+                 [] tr[1] = "un" -> HasConv(tr[3]) [] tr[1] = "par" -> HasConv(tr[2])
+                 [] tr[1] = "bin" -> HasConv(tr[3]) \/ HasConv(tr[4]) [] OTHER -> FALSE
+\* READ / INPUT whose target has a convertible function in a subscript
+ConvInReadInputSubscript(code) ==
+  \E q \in 1..Len(code) : code[q].op \in {"READ", "INPUT"} /\
+     \E k \in 1..Len(code[q].a) : code[q].a[k][1] = "idx" /\ \E j \in 1..Len(code[q].a[k][3]) : HasConv(code[q].a[k][3][j])
+LineHas(toks, words) == \E k \in 1..Len(toks) : toks[k].k = "id" /\ toks[k].v \in words
+Situate(cs, ps, vd) ==
+  IF vd.ok \/ ~ConvInReadInputSubscript(ps.dp.code) THEN vd
+  ELSE IF \/ (vd.clause = "parses" /\ ps.tln >= 1 /\ ps.tln <= Len(cs.out) /\ LineHas(cs.out[ps.tln], {"READ", "INPUT"}))
+          \/ (vd.clause = "call-seq" /\ vd.ssk = "lost")
+          \/ (vd.clause = "obs" /\ vd.ssk \in {"READ", "INPUT"})
+       THEN [vd EXCEPT !.key = "lost-call:src=convertible-function-in-READ-INPUT-subscript", !.detail = vd.key \o " | " \o @]
+       ELSE vd
 
 \* one case under all its scripts: the first rejected script decides, otherwise ok / unjudged counts
 JudgeAll(cs) ==
   LET ps == Parsed(cs) IN
   IF ~ps.sok THEN [V(TRUE, "machinery", "src-parse", ps.serr) EXCEPT !.detail = ps.serr]
-  ELSE IF ~ps.tok THEN V(FALSE, "parses", "parses:" \o ps.terr, "target line " \o ToString(ps.tln))
+  ELSE IF ~ps.tok THEN Situate(cs, ps, V(FALSE, "parses", "parses:" \o ps.terr, "target line " \o ToString(ps.tln)))
   ELSE LET vs == [k \in 1..Len(cs.scripts) |-> JudgeRun(ps, cs, cs.scripts[k].inp, cs.scripts[k].dev)]
            bad == { k \in 1..Len(vs) : ~vs[k].ok }
            unj == { k \in 1..Len(vs) : vs[k].clause = "unjudged" } IN
-       IF bad # {} THEN LET k == CHOOSE q \in bad : \A j \in bad : q <= j IN [vs[k] EXCEPT !.detail = "script " \o ToString(k) \o ": " \o @]
+       IF bad # {} THEN LET k == CHOOSE q \in bad : \A j \in bad : q <= j IN Situate(cs, ps, [vs[k] EXCEPT !.detail = "script " \o ToString(k) \o ": " \o @])
        ELSE IF unj = {} THEN V(TRUE, "ok", "", ToString(Len(vs)))
        ELSE IF Cardinality(unj) = Len(vs) THEN LET k == CHOOSE q \in unj : TRUE IN V(TRUE, "unjudged", vs[k].key, vs[k].detail)
        ELSE V(TRUE, "ok", "", ToString(Len(vs) - Cardinality(unj)))
